@@ -6,10 +6,36 @@ from concurrent.futures import ThreadPoolExecutor
 import vlib
 
 # operation codes (harness/cmd/c07/main.go, Model/Registry.v `op`, Corr/C07.v dec_op)
-ACCEPT, HANDSHAKE, HEARTBEAT, CLOSE, REMOVE, UNREG, KICK, SWEEP, TICK, REGRAW, AUTHRAW, TOTUNNEL, BREAK = range(13)
+ACCEPT, HANDSHAKE, HEARTBEAT, CLOSE, REMOVE, UNREG, KICK, SWEEP, TICK, REGRAW, AUTHRAW, TOTUNNEL, BREAK, REREG, REREGNEW = range(15)
 OPNAMES = ["Accept", "Handshake", "Heartbeat", "CloseConnection", "RemoveControlConnection", "Unregister", "KickOld",
-           "Sweep", "Tick", "RegisterRaw", "UpdateAuthRaw", "ToTunnel", "BreakWrites"]
+           "Sweep", "Tick", "RegisterRaw", "UpdateAuthRaw", "ToTunnel", "BreakWrites", "ReRegister", "ReRegisterNewStream"]
 KNOWN_KEY = "reauth-stale-index"
+REREG_KEY = "register-replace-closes-shared-stream"
+# Register of a ConnID that already has an (authenticated) record; the replacement wraps the same stream
+WITNESS_REREG = [[ACCEPT, 1], [HANDSHAKE, 1, 0, 7, 1], [REREG, 1, 9], [CLOSE, 1]]
+WITNESS_REREG_UNAUTH = [[ACCEPT, 1], [HANDSHAKE, 1, 0, 7, 1], [REREG, 1, 0], [CLOSE, 1]]
+WITNESS_REREG_NEW = [[ACCEPT, 1], [HANDSHAKE, 1, 0, 7, 1], [REREGNEW, 1, 0], [CLOSE, 1]]
+WITNESS_REREG_NEW_AUTH = [[ACCEPT, 1], [ACCEPT, 2], [HANDSHAKE, 1, 0, 7, 1], [REREGNEW, 1, 9], [HANDSHAKE, 2, 0, 9, 1], [CLOSE, 1]]
+
+# lock contention: (config, prefix, A, B) — A and B are started while the harness holds the registry mutex
+LOCK_CASES = [
+    ({"maxConn": 0, "maxCtl": 0, "tmo": 2}, [[ACCEPT, 1], [REGRAW, 1, 0]], [AUTHRAW, 1, 5], [REMOVE, 1]),
+    ({"maxConn": 0, "maxCtl": 0, "tmo": 2}, [[ACCEPT, 1], [REGRAW, 1, 0]], [AUTHRAW, 1, 5], [UNREG, 1]),
+    ({"maxConn": 0, "maxCtl": 0, "tmo": 2}, [[ACCEPT, 1], [HANDSHAKE, 1, 0, 5, 1]], [AUTHRAW, 1, 6], [KICK, 5, 9]),
+    ({"maxConn": 0, "maxCtl": 0, "tmo": 2}, [[ACCEPT, 1], [ACCEPT, 2], [HANDSHAKE, 1, 0, 5, 1], [REGRAW, 2, 0]], [AUTHRAW, 2, 5], [KICK, 5, 2]),
+    ({"maxConn": 0, "maxCtl": 0, "tmo": 2}, [[ACCEPT, 1], [REGRAW, 1, 0]], [AUTHRAW, 1, 5], [AUTHRAW, 1, 6]),
+    ({"maxConn": 0, "maxCtl": 0, "tmo": 2}, [[ACCEPT, 1], [HANDSHAKE, 1, 0, 5, 1]], [REMOVE, 1], [KICK, 5, 9]),
+    ({"maxConn": 0, "maxCtl": 2, "tmo": 2}, [[ACCEPT, 1], [ACCEPT, 2], [ACCEPT, 3], [REGRAW, 1, 0], [REGRAW, 2, 0]], [REGRAW, 3, 5], [AUTHRAW, 1, 6]),
+    ({"maxConn": 0, "maxCtl": 0, "tmo": 2}, [[ACCEPT, 1], [HANDSHAKE, 1, 0, 5, 1]], [UNREG, 1], [REMOVE, 1]),
+]
+# re-registration under contention (only on a tree where Register does not close the stream the replacement shares)
+LOCK_CASES_REREG = [
+    ({"maxConn": 0, "maxCtl": 0, "tmo": 2}, [[ACCEPT, 1], [REGRAW, 1, 0]], [AUTHRAW, 1, 5], [REREG, 1, 6]),
+    ({"maxConn": 0, "maxCtl": 0, "tmo": 2}, [[ACCEPT, 1], [HANDSHAKE, 1, 0, 5, 1]], [REREG, 1, 0], [AUTHRAW, 1, 6]),
+    ({"maxConn": 0, "maxCtl": 0, "tmo": 2}, [[ACCEPT, 1], [HANDSHAKE, 1, 0, 5, 1]], [REREG, 1, 6], [UNREG, 1]),
+]
+# (pairs in which one operation closes the transport the other one's caller-side guard looks at are not used: the harness
+#  evaluates "transport open" before the call is queued)
 
 # the 3-op witness of DESIGN.md Appendix A, via the registry API and via real handshakes
 WITNESS_RAW = [[ACCEPT, 1], [REGRAW, 1, 0], [AUTHRAW, 1, 100], [AUTHRAW, 1, 200], [REMOVE, 1]]
@@ -30,6 +56,9 @@ EX_ALPHABET = [[HANDSHAKE, 1, 0, 1, 1], [HANDSHAKE, 1, 0, 2, 1], [HANDSHAKE, 2, 
 EX_ALPHABET_LIMIT = [[HANDSHAKE, 1, 0, 1, 1], [HANDSHAKE, 2, 0, 1, 1], [HANDSHAKE, 2, 0, 2, 1], [HANDSHAKE, 3, 0, 2, 1],
                      [HANDSHAKE, 3, 1, 1, 1], [REGRAW, 3, 1], [REGRAW, 2, 0], [CLOSE, 1], [REMOVE, 2], [KICK, 1, 3],
                      [SWEEP], [TICK, 3], [HEARTBEAT, 2]]
+# re-registration of an existing ConnID: replacement unauthenticated / pre-authenticated, same stream / fresh stream object
+EX_ALPHABET_REREG = [[HANDSHAKE, 1, 0, 1, 1], [HANDSHAKE, 2, 0, 1, 1], [HANDSHAKE, 2, 0, 2, 1], [REREG, 1, 0], [REREG, 1, 2], [REREG, 2, 1],
+                     [REREGNEW, 1, 0], [REREGNEW, 1, 2], [REGRAW, 3, 0], [CLOSE, 1], [REMOVE, 1], [KICK, 2, 3], [AUTHRAW, 1, 1], [UNREG, 1]]
 
 
 EX_INJECT = [[CLOSE, 1, 0, 0, 0], [CLOSE, 2, 0, 0, 0], [KICK, 1, 3, 0, 0], [SWEEP, 0, 0, 0, 0],
@@ -94,8 +123,10 @@ def rand_op(rng, conns, clients):
         return [TICK, rng.choice([1, 1, 2, 3, 4])]
     if r < 0.91:
         return [REGRAW, c, rng.choice([0, x])]
-    if r < 0.95:
+    if r < 0.935:
         return [AUTHRAW, c, x]
+    if r < 0.955:
+        return rng.choice([[REREG, c, 0], [REREG, c, x], [REREG, c, x], [REREGNEW, c, 0], [REREGNEW, c, x]])
     if r < 0.98:
         return [TOTUNNEL, c, rng.choice([0, 1, 1, 2])]
     return [BREAK, c]
@@ -176,13 +207,22 @@ def pad(o):
     return (list(o) + [0] * 11)[:11]
 
 
-def case_value(variant_current, cfg, ops, steps):
-    return [1 if variant_current else 0, [cfg["maxConn"], cfg["maxCtl"], cfg["tmo"]], [pad(o) for o in ops], [flat(s) for s in steps]]
+def case_value(variant, cfg, ops, steps, mode=0):
+    """variant: 0 Pinned, 1 Current, 2 Head (Corr/C07.dec_variant); mode 1 = lock-contention case (final state only)"""
+    return [variant, [cfg["maxConn"], cfg["maxCtl"], cfg["tmo"]], [pad(o) for o in ops], [flat(s) for s in steps], mode]
+
+
+def model_cut(ops):
+    """operations with a fresh stream object for an existing ConnID are outside the Coq model (one transport per connection id)"""
+    for i, o in enumerate(ops):
+        if o[0] == REREGNEW or (len(o) > 6 and o[5] and o[6] == REREGNEW):
+            return i
+    return len(ops)
 
 
 def describe(ops):
     def one(o):
-        return "%s(%s)" % (OPNAMES[o[0]] if o[0] < 13 else "?", ",".join(map(str, o[1:5])))
+        return "%s(%s)" % (OPNAMES[o[0]] if o[0] < 15 else "?", ",".join(map(str, o[1:5])))
     return "; ".join(one(o) if len(o) <= 5 or not o[5] else "%s{at I/O point %d: %s}" % (one(o), o[5] - 1, one(o[6:])) for o in ops)
 
 
@@ -255,15 +295,17 @@ def run(ctx, only_cases=None):
         pinfo = vlib.coq_properties("C07")
         vlib.coq_make(["Proofs/SideC07.vo"])
         vlib.proof_coverage(ctx, pinfo, "make -C coq Properties/C07.vo Proofs/SideC07.vo && coqc Properties/C07.v (Print Assumptions audit)",
-                            extra_obligations=4)  # the 4 regenerated side conditions of Proofs/SideC07.v
+                            extra_obligations=6)  # the 6 regenerated side conditions of Proofs/SideC07.v
     except vlib.Broken as b:
         broken = b   # keep going: search the implementation for a concrete failing history first
 
     rng = ctx.rng
     probes = [{"cfg": CFG0, "ops": w, "stream": "witness"} for w in (WITNESS_RAW, WITNESS_HS, WITNESS_TUN, WITNESS_WFAIL,
-                                                                         WITNESS_LATE_CLOSE, WITNESS_CLOSE_RELOGIN, WITNESS_KICK_CLOSE)]
+                                                                         WITNESS_LATE_CLOSE, WITNESS_CLOSE_RELOGIN, WITNESS_KICK_CLOSE,
+                                                                         WITNESS_REREG_UNAUTH, WITNESS_REREG_NEW, WITNESS_REREG_NEW_AUTH)]
+    probes.insert(1, {"cfg": CFG0, "ops": WITNESS_REREG, "stream": "witness"})
     if only_cases is not None:
-        cases = probes[:1] + only_cases
+        cases = probes[:2] + only_cases
     else:
         cases = probes + load_corpus()
         cases += gen_structured(rng, 12000 if thorough else 3000, 12)
@@ -272,8 +314,14 @@ def run(ctx, only_cases=None):
     outs = vlib.run_harness(binary, [{"cfg": c["cfg"], "ops": c["ops"]} for c in cases], timeout=900)
 
     # which tree is this?  The first probe is the registry-API witness of the recorded defect.
+    # The second probe is the registry-API witness of the second one (Register of an existing ConnID closes the shared stream).
     tree_pinned = any(v["kind"] == "idx-cid-mismatch" for v in outs[0]["viol"])
-    ctx.coverage["tree_variant"] = "pinned (fixes/C07-reauth-stale-index.diff not applied)" if tree_pinned else "current (index reconciled on re-authentication)"
+    tree_head = (not tree_pinned) and outs[1].get("attr_key") == REREG_KEY
+    variant = 0 if tree_pinned else (2 if tree_head else 1)
+    tree_known = {KNOWN_KEY, REREG_KEY} if tree_pinned else ({REREG_KEY} if tree_head else set())
+    ctx.coverage["tree_variant"] = {0: "pinned (neither C07 fix applied)",
+                                    2: "head (5522a98 applied; fixes/C07-register-replace-shared-stream.diff not applied)",
+                                    1: "current (both C07 fixes applied)"}[variant]
 
     # (iii) the property predicate evaluated on the real code's own answers, after every operation
     nfail = nknown = 0
@@ -283,12 +331,13 @@ def run(ctx, only_cases=None):
         if not o["viol"]:
             continue
         first = o["viol"][0]
-        if tree_pinned and o["attributable"]:
+        if o["attributable"] and o.get("attr_key") in tree_known:
             nknown += 1
             cut[i] = first["step"] + 1
-            if KNOWN_KEY not in reported:
-                reported.add(KNOWN_KEY)
-                ctx.violation(KNOWN_KEY, "real registry: %s after [%s]" % (first["msg"], describe(c["ops"][:first["step"] + 1])),
+            kk = o["attr_key"]
+            if kk not in reported:
+                reported.add(kk)
+                ctx.violation(kk, "real registry: %s after [%s]" % (first["msg"], describe(c["ops"][:first["step"] + 1])),
                               {"case": {"cfg": c["cfg"], "ops": c["ops"]}, "violations": o["viol"][:6]})
             continue
         nfail += 1
@@ -309,6 +358,7 @@ def run(ctx, only_cases=None):
         plans = [(CFG0, EX_PREFIX, EX_ALPHABET, 5 if thorough else 4, 37 if thorough else 23, ()),
                  ({"maxConn": 0, "maxCtl": 2, "tmo": 2}, EX_PREFIX, EX_ALPHABET_LIMIT, 5 if thorough else 3, 29 if thorough else 5, ()),
                  # interleavings: every I/O point of every handshake / close / kick of the word x every injectable operation
+                 (CFG0, EX_PREFIX, EX_ALPHABET_REREG, 5 if thorough else 3, 41 if thorough else 3, ()),
                  (CFG0, EX_PREFIX, EX_ALPHABET, 4 if thorough else 2, 61 if thorough else 7, EX_INJECT),
                  ({"maxConn": 0, "maxCtl": 2, "tmo": 2}, EX_PREFIX, EX_ALPHABET_LIMIT, 3 if thorough else 2, 31 if thorough else 7, EX_INJECT)]
         for cfg, prefix, alpha, depth, stride, inject in plans:
@@ -317,18 +367,20 @@ def run(ctx, only_cases=None):
                 ex_total += r["total"]
                 ex_steps += r["steps_total"]
                 examples = list(r["viol"])
-                if tree_pinned:
-                    nknown += r["nknown"]
-                    if r["nknown"] and KNOWN_KEY not in reported:
-                        reported.add(KNOWN_KEY)
-                        k0 = r["known_examples"][0]
-                        ctx.violation(KNOWN_KEY, "real registry (exhaustive enumeration): %s after [%s]" % (
-                            k0["viol"][0]["msg"], describe(k0["ops"][:k0["viol"][0]["step"] + 1])),
-                            {"case": {"cfg": cfg, "ops": k0["ops"]}, "violations": k0["viol"][:6]})
-                else:
-                    # the defect shape on a tree whose registry-API probe is clean is a genuine violation
-                    examples += r["known_examples"]
-                    nfail += r["nknown"]
+                for kk, cnt in (r.get("nknown_by") or {}).items():
+                    exs = [e for e in r["known_examples"] if any(v.get("known_key") == kk for v in e["viol"])]
+                    if kk in tree_known:
+                        nknown += cnt
+                        if kk not in reported and exs:
+                            reported.add(kk)
+                            k0 = exs[0]
+                            ctx.violation(kk, "real registry (exhaustive enumeration): %s after [%s]" % (
+                                k0["viol"][0]["msg"], describe(k0["ops"][:k0["viol"][0]["step"] + 1])),
+                                {"case": {"cfg": cfg, "ops": k0["ops"]}, "violations": k0["viol"][:6]})
+                    else:
+                        # the shape of a repaired defect on a tree whose registry-API probe is clean is a genuine violation
+                        examples += exs
+                        nfail += cnt
                 nfail += r["nviol"]
                 for b in examples[:1]:
                     key = "inv:" + b["viol"][0]["kind"]
@@ -340,22 +392,56 @@ def run(ctx, only_cases=None):
                             ([v for v in so["viol"] if v["kind"] == b["viol"][0]["kind"]] or b["viol"])[0]["msg"], describe(small["ops"])),
                             {"case": small, "violations": (so["viol"] or b["viol"])[:6]})
                 for e in r["emitted"]:
-                    ex_emitted.append({"cfg": cfg, "ops": e["ops"], "steps": e["steps"], "viol": e["viol"], "attributable": e["attributable"]})
+                    ex_emitted.append({"cfg": cfg, "ops": e["ops"], "steps": e["steps"], "viol": e["viol"],
+                                       "attributable": e["attributable"] and e.get("attr_key") in tree_known})
+
+    # lock contention on the registry mutex: two registry calls queued on it, both start orders, N repetitions
+    lock_runs = 0
+    lock_terms = []          # (case index, [term for A;B, term for B;A]) per distinct final state
+    lock_cases = []
+    if only_cases is None:
+        lock_cases = LOCK_CASES + (LOCK_CASES_REREG if variant == 1 else [])
+        louts = vlib.run_harness(binary, [{"mode": "lock", "cfg": cfg, "prefix": pre, "a": a, "b": b, "reps": 150 if thorough else 15}
+                                          for cfg, pre, a, b in lock_cases], timeout=900)
+        for li, ((cfg, pre, a, b), lo) in enumerate(zip(lock_cases, louts)):
+            lock_runs += lo["runs"]
+            if lo["nviol"]:
+                nfail += lo["nviol"]
+                v0 = lo["viol"][0]
+                key = "inv:" + v0["viol"][0]["kind"]
+                if key not in reported and len(reported) < 4:
+                    reported.add(key)
+                    ctx.violation(key, "real ClientRegistry under lock contention (%d of %d runs): %s after [%s] then, both queued on the registry "
+                                  "mutex, %s || %s" % (lo["nviol"], lo["runs"], v0["viol"][0]["msg"], describe(pre), describe([a]), describe([b])),
+                                  {"lock_case": {"cfg": cfg, "prefix": pre, "a": a, "b": b}, "violations": v0["viol"][:6], "ops_started_in_order": v0["ops"]})
+            else:
+                for fin in lo["finals"]:
+                    lock_terms.append((li, [case_value(variant, cfg, pre + [a, b], [fin], 1), case_value(variant, cfg, pre + [b, a], [fin], 1)]))
 
     # (ii) model vs implementation, state after every operation
     terms, owners = [], []
     for i, (c, o) in enumerate(zip(cases, outs)):
-        k = cut.get(i, len(c["ops"]))
-        terms.append(case_value(not tree_pinned, c["cfg"], c["ops"][:k] if k < len(c["ops"]) else c["ops"], o["steps"][:k]))
+        k = min(cut.get(i, len(c["ops"])), model_cut(c["ops"]))
+        terms.append(case_value(variant, c["cfg"], c["ops"][:k] if k < len(c["ops"]) else c["ops"], o["steps"][:k]))
         owners.append(("case", i))
     for j, e in enumerate(ex_emitted):
         k = len(e["ops"])
         if e["viol"]:
-            k = e["viol"][0]["step"] + (1 if (tree_pinned and e["attributable"]) else 0)
-        terms.append(case_value(not tree_pinned, e["cfg"], e["ops"][:k], e["steps"][:k]))
+            k = e["viol"][0]["step"] + (1 if e["attributable"] else 0)
+        k = min(k, model_cut(e["ops"]))
+        terms.append(case_value(variant, e["cfg"], e["ops"][:k], e["steps"][:k]))
         owners.append(("ex", j))
     mism = []
     try:
+        if lock_terms:
+            lres = vlib.model_eval("C07", [t for _, pair in lock_terms for t in pair])
+            for n, (li, pair) in enumerate(lock_terms):
+                if not (lres[2 * n] or lres[2 * n + 1]) and not ctx.violations:
+                    cfg, pre, a, b = lock_cases[li]
+                    ctx.violation("inv:lock-not-serializable", "real ClientRegistry under lock contention: after [%s] the concurrent pair %s || %s ended "
+                                  "in a state that neither sequential order produces in the model (each registry method is one critical section)"
+                                  % (describe(pre), describe([a]), describe([b])),
+                                  {"lock_case": {"cfg": cfg, "prefix": pre, "a": a, "b": b}, "final": pair[0][3]})
         res = vlib.model_eval("C07", terms)
         mism = [i for i, ok in enumerate(res) if not ok]
         small = [i for i in range(len(terms)) if len(terms[i][2]) <= 8][:: max(1, len(terms) // 30)][:30]
@@ -377,7 +463,7 @@ def run(ctx, only_cases=None):
             pred = [None]
         ctx.violation("model-mismatch", "Corr/C07.check: Model/Registry.v (%s variant) and the real SessionManager/ClientRegistry disagree on the "
                       "state after some operation of [%s] although the Go-side invariant holds there; the theorems of Properties/C07.v no "
-                      "longer speak about this code" % ("Pinned" if tree_pinned else "Current", describe(src["ops"])),
+                      "longer speak about this code" % ({0: "Pinned", 1: "Current", 2: "Head"}[variant], describe(src["ops"])),
                       {"case": {"cfg": src["cfg"], "ops": src["ops"]}, "observed": [flat(s) for s in obs], "model": pred[0]}, found_input=False)
 
     # coverage
@@ -389,7 +475,7 @@ def run(ctx, only_cases=None):
         h = json.dumps([c["cfg"], c["ops"]], sort_keys=True)
         distinct.add(h)
         for op in c["ops"]:
-            if op[0] < 13:
+            if op[0] < 15:
                 hist[OPNAMES[op[0]]] += 1
         lens[len(c["ops"])] = lens.get(len(c["ops"]), 0) + 1
         st = o["steps"]
@@ -417,6 +503,7 @@ def run(ctx, only_cases=None):
                     for i in (1, len(cases) // 2, len(cases) - 1) if i < len(cases)],
         "interleaved_random_cases_fired": sum(1 for o in outs if any(st.get("fired") for st in o["steps"])),
         "interleaved_exhaustive_runs_fired": ex_fired,
+        "lock_contention_runs": lock_runs, "lock_contention_scenarios": len(lock_cases),
         "exhaustive_words": ex_total, "exhaustive_steps": ex_steps, "exhaustive_words_sent_to_model": len(ex_emitted),
         "model_vs_impl_cases": len(terms), "model_vs_impl_mismatches": len(mism),
         "impl_invariant_failures": nfail, "impl_known_defect_sequences": nknown,
@@ -433,7 +520,11 @@ def run(ctx, only_cases=None):
         "the auth handler authenticates only positive client ids (ServerAuthHandler: generated id or req.ClientID>0); the harness uses a scripted AuthHandler",
         "raw Register/UpdateAuth are applied only to open transports and Register only to a session connection without a control record (the server's call sites)",
         "clock: logical hours; the harness shifts LastActiveAt of registered connections back on Tick and stamps CreatedAt in creation order; HeartbeatTimeout = tmo h + 30 min",
-        "connection ids are used once (StreamManager never forgets an id); client ids are non-negative",
+        "connection ids are accepted once (StreamManager never forgets an id) but a ConnID may be REGISTERED again while it has a record; a fresh "
+        "stream object for an existing ConnID is reachable only through the raw registry API and is checked on the real code only (the model has one transport per connection id)",
+        "lock contention: the harness evaluates its caller-side guards (transport open) before a call is queued, so pairs in which one call closes the "
+        "transport the other one's guard looks at are not used; each ClientRegistry method is one critical section (side condition from go/ast)",
+        "client ids are non-negative",
     ]
     if broken is not None:
         raise broken
